@@ -7,3 +7,7 @@ pub open spec fn appended_ok<F: DataAccessDyn>(ed: EdgeV, es0: Seq<EdgeV>, ws: S
     &&& !reach(es0, ed.src, ed.dst) && !reach(es0, ed.dst, ed.src)
 }
 
+/// C12: no appended edge is implied by the other edges: removing it disconnects its endpoints
+pub open spec fn non_redundant(es: Seq<EdgeV>, from: int) -> bool {
+    forall|x: int| from <= x < es.len() ==> !reach(es.remove(x), (#[trigger] es[x]).src, es[x].dst)
+}
